@@ -187,6 +187,7 @@ type FX struct {
 	cwSeen   map[*ssa.Function]bool
 	known    map[string]bool
 	oblAssumes map[int]bool
+	degraded []string
 }
 
 func (e *Engine) newFX(fn *ssa.Function, spec *FuncSpec) *FX {
